@@ -174,7 +174,14 @@ class Checker:
 
     def three(self, src):
         tree = ast.parse(src)
-        impl = fe.flat_lines(self.fa.flatten_ast(tree))
+        try:
+            impl = fe.flat_lines(self.fa.flatten_ast(tree))
+        except RecursionError:
+            raise
+        except Exception as exc:
+            # the implementation raised on a parsable program: a one-line pseudo-output, so that the case is compared (and
+            # fails), attributed, minimised and replayed like any other difference
+            impl = [f"<flatten_ast raised {type(exc).__name__}: {exc}>"]
         ex = fe.export(tree)
         model = self.drv.call("c15.flatten", tree=ex)["lines"]
         r = self.drv.call("c15.spec", tree=ex)
@@ -391,7 +398,10 @@ def run_passes(ctx, drv, fa):
         bad = 0
         for c, o in zip(cases, outs):
             text = "".join(l + "\n" for l in c)
-            impl = fe.flat_lines(real(text))
+            try:
+                impl = fe.flat_lines(real(text))
+            except Exception as exc:  # compared (and different) like any other output: recorded with its input lines
+                impl = [f"<{name} raised {type(exc).__name__}: {exc}>"]
             ctx.count(f"pass:{name}", tuple(c), nontrivial=impl != c)
             if impl != o["lines"]:
                 bad += 1
@@ -412,15 +422,25 @@ def run_sequences(ctx, drv, fa, sources):
     for s in range(n_seq):
         pick = [rng.choice(sources) for _ in range(rng.randint(3, 8))]
         trees = [ast.parse(x) for x in pick]
-        singles = []
-        for t in trees:
-            singles.append(fa.flatten_ast(t))
+        try:
+            singles = [fa.flatten_ast(t) for t in trees]
+        except Exception as exc:  # every source here is also a case of the program streams, which report it
+            ctx.dist(f"sequence: flatten_ast raised {type(exc).__name__} on a single tree")
+            continue
         order = [rng.randrange(len(trees)) for _ in range(rng.randint(5, 20))]
         outs = []
         for i in order:
             if rng.random() < 0.3:
                 fa.pseudo_hash("Name(id='" + rng.choice(fe.IDENTS) + "')")  # other users of the factory
-            outs.append(fa.flatten_ast(trees[i]))
+            try:
+                outs.append(fa.flatten_ast(trees[i]))
+            except Exception as exc:
+                ctx.violations.append({
+                    "what": f"flatten_ast raised {type(exc).__name__}: {exc} on a tree it flattens when called first",
+                    "signature": None,
+                    "replay": {"kind": "sequence", "sources": pick, "order": order, "position": len(outs)},
+                })
+                return
         m = drv.call("c15.seq", trees=[fe.export(t) for t in trees], order=order)["out"]
         ctx.count("sequence", (s, tuple(order)), nontrivial=len(set(order)) > 1, n=len(order))
         for j, i in enumerate(order):
